@@ -68,8 +68,9 @@ def r4(orig, rule):
 
 def r9(orig, rule):
     # for PAT in E.by_ref() {   ->  loop { match E.next() { Some(PAT) => {
+    #   for PAT in &mut E {       ->  same (IntoIterator for &mut I is the identity, like by_ref)
     s = norm(orig)
-    m = _m(r'for (.+?) in (.+?) \. by_ref \( \) \{', s)
+    m = re.fullmatch(r'for (.+?) in (.+?) \. by_ref \( \) \{', s) or _m(r'for (.+?) in & mut (.+?) \{', s)
     pat, e = m.groups()
     return 'loop { match %s.next() { Some(%s) => {' % (e, pat)
 
@@ -336,6 +337,23 @@ def rbw(orig, rule):
     return out
 
 
+def r22(orig, rule):
+    # X.extend(repeat(V).take(N));  ->  { let __v = V; let __n = N; for __i in 0..__n { X.push(__v); } }
+    #   (V a Copy value: repeat() clones it; Vec::extend pushes the items in order)
+    s = norm(orig)
+    m = _m(r'(.+?) \. extend \( (?:(?:std :: )?iter :: )?repeat \( (.+?) \) \. take \( (.+?) \) \) ;', s)
+    x, v, n = m.groups()
+    return '{ let __v = %s; let __n = %s; for __i in 0..__n { %s.push(__v); } }' % (v, n, x)
+
+
+def r23(orig, rule):
+    # X.extend(A..=B);  ->  for __i in __it: A..=B { X.push(__i); }
+    s = norm(orig)
+    m = _m(r'(.+?) \. extend \( (.+?) \.\.= (.+?) \) ;', s)
+    x, a, b = m.groups()
+    return 'for __i in __it: %s..=%s { %s.push(__i); }' % (a, b, x)
+
+
 def r1b(orig, rule):
     # for (I, X) in E.iter().enumerate() {   ->  for I in 0..E.len() { let X = &E[I];      (X bound to a reference, as the iterator yields)
     s = norm(orig)
@@ -353,7 +371,7 @@ def r1t(orig, rule):
 
 
 GENERATORS = {
-    'R1b': r1b, 'R1t': r1t,
+    'R1b': r1b, 'R1t': r1t, 'R22': r22, 'R23': r23,
     'RBW': rbw,
     'R4m': r4m,
     'R12m': r12m,
